@@ -14,7 +14,7 @@ CLAIMED = {
                   "arguments are judged by TLC against the outcome and the event law (code->spec)",
         text="Bounded-exhaustive model checking of Python-list semantics + event law (all lists up to length 3/5 over "
              "2 items, every index/slice in range -5..5/-7..7 with steps -3..3, all mutators) with every enumerated "
-             "case executed against the implementation and judged by TLC; plus seeded histories on longer lists.",
+             "case executed against the implementation and judged by TLC; plus seeded histories on longer lists. Session 4: items as objects (equal-but-distinct twins, an item not equal to itself) in a second enumeration and in the histories.",
         note="Trusted: TLC, the transcription of Python list semantics in TraitList.tla (cross-checked on every case "
              "against the builtin list), the concretisation of abstract items (small ints / digit strings).",
         design="4/C05"),
@@ -29,7 +29,7 @@ CLAIMED = {
              "Instance/Type incl. lazily resolved class names, Callable, Either/Union incl. nested and Python-only "
              "alternatives) x 60 value classes (bool/int/float subclasses, numpy scalars, __index__/__float__/"
              "__complex__ objects incl. raising ones, NaN/inf/-0.0, huge ints, None, text, tuples, lists, classes, "
-             "instances) x 4 assignment routes.",
+             "instances) x 4 assignment routes. Session 4: Array / CArray / ArrayOrNone (ArrayTrait.tla: 8 dtypes x 12 shape patterns x 3-5 casting rules x ~160 numpy arrays, nested lists/tuples, ragged and non-sequence values; the documented default zeros(min(shape)); numpy's casting rules checked as an environment assumption) and This/self, Module, Date, Datetime, Time, UUID, File, Directory, Expression (MoreTypes.tla) are now part of this check; This and Complex also as Tuple members / compound alternatives.",
         note="Trusted: TLC; one concrete representative per value class; Array, Date/Time/UUID, File/Directory, "
              "List/Dict/Set element validation (C04) are outside this check.",
         design="4/C01"),
@@ -40,7 +40,7 @@ CLAIMED = {
                   "called on the real trait for every pair and judged by TLC",
         text="Same enumeration as C01; three-way agreement spec-Fast = C path, spec-Py = Python path, Fast ~ Py, for "
              "all fast-validating trait types and compound nestings (Either with nested Either, Python-only "
-             "alternatives, Tuple members, lazily resolved Instance inside a compound).",
+             "alternatives, Tuple members, lazily resolved Instance inside a compound). Session 4: This (self_type validator) and Module, also as compound alternatives / Tuple members; Complex as a compound alternative.",
         note="Trusted: TLC; legacy Trait()/TraitCoerceType handlers are not enumerated; a Python method raising a "
              "non-TraitError exception where the fast path raises TraitError counts as agreement (both reject).",
         design="4/C03"),
@@ -52,7 +52,7 @@ CLAIMED = {
         text="Model checking over 3 comparison modes x trait/Event x typed/untyped x 11 value tokens (identical, "
              "equal-not-identical, two NaN objects, raising ==, numpy arrays, None, default, rejected) to depth 3/5; every "
              "case executed under 7 sets of raising handlers; recorded old/new per mechanism judged by TLC both against "
-             "the code-shaped filters and against the property's IsChange directly.",
+             "the code-shaped filters and against the property's IsChange directly. Session 4: a second object-level handler, one-shot assignments (handlers that remove themselves while being called), a wildcard-declared attribute with a sibling-name probe, trait types that store the original value (setattr_original_value).",
         note="Trusted: TLC; the token/equality structure of Notify.tla matches the concrete values; default "
              "exception-handler configuration; dispatch='same' only (no other threads).",
         design="4/C02"),
@@ -64,7 +64,7 @@ CLAIMED = {
         text="Model checking of the container-attribute model (histories to depth 2/3 over all mutators with bounded "
              "argument domains; invariants in every state) + bounded-exhaustive one-step conformance of the "
              "implementation (5 container kinds x inner-trait modes x length bounds) judged by TLC, which also evaluates "
-             "the C04 invariant, failure atomicity and silence-on-failure on every observed post-state.",
+             "the C04 invariant, failure atomicity and silence-on-failure on every observed post-state. Session 4: first read of a never-assigned List trait (default outside the bounds is refused), del / reset_traits, every case also on a falsy owner object.",
         note="Trusted: TLC, the container semantics of TraitList/TraitDict/TraitSet.tla, inner traits limited to Int "
              "(strict) and CInt (coercing); nested kinds limited to List(List(T)) and Dict(K, List(T)).",
         design="4/C04"),
@@ -75,7 +75,7 @@ CLAIMED = {
         text="Bounded-exhaustive model checking of insertion-ordered dict semantics + the reconstruction law (dicts up to "
              "2/3 keys, update/|= with up to 2/3 pairs incl. duplicates, coercing/rejecting key and value validators, "
              "equal-but-distinct float keys) with every case executed on the implementation and judged by TLC; seeded "
-             "histories on top.",
+             "histories on top. Session 4: float keys equal to int keys that a validator rejects (EqInvalid / RawKey), falsy keys and values as a third representative.",
         note="Trusted: TLC, TraitDict.tla's dict semantics (cross-checked per case against builtin dict), item "
              "concretisation. Known finding F14 (setdefault with coerced key) is a named deviation action.",
         design="4/C06"),
@@ -85,7 +85,7 @@ CLAIMED = {
                   "builtin set; recorded executions incl. actual (removed, added) judged by TLC (Trace_TraitSet)",
         text="Bounded-exhaustive model checking of set semantics + delta law (all subsets of 3 items x all argument "
              "subsets of 5 items x 1-2 iterables x all mutators) with every case executed on the implementation and "
-             "judged by TLC; seeded histories on top.",
+             "judged by TLC; seeded histories on top. Session 4: the TraitSetObject of a Set trait seen from its owner in three owner shapes (plain, HasStrictTraits with Union(None, Set(T)), falsy owner).",
         note="Trusted: TLC, TraitSet.tla (cross-checked per case against builtin set), item concretisation. Known "
              "finding F15 (symmetric difference with coerced items) is a named deviation action; F2 fixed in /repo.",
         design="4/C07"),
@@ -100,7 +100,7 @@ CLAIMED = {
              "implementation-shaped maintenance model against it; conformance on a real pool of 4 interlinked objects "
              "(Instance link with comparison mode none, List with duplicates, Dict with coercing keys, metadata-tagged "
              "traits, lazily materialised containers) under 19 expressions: 20k enumerated single-operation cases + "
-             "seeded histories, every step judged by TLC.",
+             "seeded histories, every step judged by TLC. Session 4: the pool's set link is identity-compared, metadata values are defined-but-falsy.",
         note="Trusted: TLC; expressions limited to the catalogue (bound to the parser: compile_str must project to "
              "the catalogue paths); dispatch='same'; set items and add_trait not exercised. Known finding F8.",
         design="4/C08"),
@@ -136,7 +136,7 @@ CLAIMED = {
                   "step, handler calls) are judged by TLC",
         text="All histories to depth 4/5 in TLC; conformance on seeded histories (24k steps quick) over 8 deferring "
              "attributes (2 kinds x 4 prefix styles), 2 candidate delegates and None, invalid assignments, and three "
-             "two-hop chains with renaming at either hop.",
+             "two-hop chains with renaming at either hop. Session 4: a class shape whose delegate link is itself a deferred attribute.",
         note="Trusted: TLC; whether a swap of the delegate or a deletion itself notifies is left open (as in the "
              "statement); listenable=True default. F5 fixed in /repo.",
         design="4/C11"),
@@ -149,7 +149,7 @@ CLAIMED = {
         text="Every recorded read must equal the value TLC computes from the projected heap (no stale read); the cached "
              "getter runs at most once and not at all without a relevant change since the previous read (TLC decides "
              "relevance of every intermediate mutation, probes included); handlers on the property are called exactly "
-             "when a relevant change alters the value; ~125k steps in the quick tier.",
+             "when a relevant change alters the value; ~125k steps in the quick tier. Session 4: properties are read again after a mutation made the root's expression inapplicable (known finding F32).",
         note="Trusted: TLC; two properties (kids.items.value cached via subclass override, child.value uncached) on "
              "the root; clone_traits only through deepcopy. Known finding F8 applies (cycles).",
         design="4/C12"),
@@ -161,7 +161,7 @@ CLAIMED = {
         text="Model checking over 162 class configurations (HasTraits/HasStrictTraits/HasPrivateTraits x three wildcard "
              "prefixes declared in base or subclass x explicit Int/ReadOnly/Constant/Event traits) x 12 names (zero/one/"
              "several prefix matches, leading underscores, dunder, exact) x all get/set/del/add_trait/remove_trait "
-             "histories to depth 2/3, each replayed on real classes; random longer histories over 18 names.",
+             "histories to depth 2/3, each replayed on real classes; random longer histories over 18 names. Session 4: hooking and unhooking a handler on a name as an operation (governs nothing).",
         note="Trusted: TLC; fresh classes per history (class-level caching across instances is C10's subject); policies "
              "limited to Int, Str, Any, ReadOnly, Constant, Event, Disallow, Python, getter-only Property.",
         design="4/C13"),
@@ -175,7 +175,7 @@ CLAIMED = {
         text="Histories over scalar / List / List(List) / Dict(Str, List) / Set / Instance / List(Instance) with aliasing "
              "/ transient / ReadOnly / declared observers (incl. post_init) / cached property, copied at random points by "
              "pickle protocols 0-5, deepcopy and clone_traits (None, shallow, deep); 112 handler configurations; ~15k "
-             "validation cases on pickled and deep-copied trait definitions.",
+             "validation cases on pickled and deep-copied trait definitions. Session 4: a PrototypedFrom attribute (falsy local values, link kept by pickle / turned into a local value by copy_traits) with its reads and notifications on copies.",
         note="Trusted: TLC; definitions that pickle refuses cleanly (lambdas, shadowed singletons) are outside the "
              "quantifier; Dict traits are reference-copied by clone/deepcopy unless copy='deep' is declared (documented "
              "default, containers are still re-wrapped). F3 fixed in /repo.",
@@ -188,7 +188,7 @@ CLAIMED = {
         text="Exhaustive to 5 (quick) / 7 (thorough) tokens over a 10-token alphabet: every grammatical string x 3 "
              "spellings compiled and compared with the specification's path set, recompiled, used in stacked @observe / "
              "observe / removal by an equivalent spelling on real objects; every non-member string up to the bound plus "
-             "junk strings must raise ValueError.",
+             "junk strings must raise ValueError. Session 4: a deep configuration (names and '.' only, up to 9 tokens) and names with non-ASCII word characters.",
         note="Trusted: TLC; names limited to two identifiers and one metadata name; whitespace variants are sampled "
              "(seeded), not enumerated. Known findings F9a/F9b.",
         design="4/C15"),
@@ -201,7 +201,7 @@ CLAIMED = {
         text="Seeded histories (quick 24k steps) over 9 extended names (series, ':' links, list and dict links at first "
              "and nested level) on tree-shaped graphs of 6 objects with fresh objects at every insertion and in-place "
              "permutations: final-attribute reachability for both systems, intermediate link assignments reported for "
-             "'.' and not for ':', silence after removal.",
+             "'.' and not for ':', silence after removal. Session 4: the legacy '+metadata' name with defined-but-falsy metadata values.",
         note="Trusted: TLC; 4-argument legacy handlers, dispatch 'same'; in-place mutation of a container link is only "
              "required to be silent for ':' links (the legacy system documents signature-dependent special cases).",
         design="4/C16"),
@@ -213,7 +213,7 @@ CLAIMED = {
         text="Exhaustive model checking over all configurations of a 7-type hierarchy family (chains, multiple "
              "inheritance, ABC virtual subclass) with 2 (quick) / 3 (thorough) offers incl. failing and conditional "
              "factories; all 2-offer configurations replayed on the real AdaptationManager through five entry points; "
-             "random 3-7 offer configurations with cycles and late ABC registration judged by TLC.",
+             "random 3-7 offer configurations with cycles and late ABC registration judged by TLC. Session 4: a deeper class chain (A3, A4, virtual registration with the ABC) in the random configurations; Supports inside Either as an entry point.",
         note="Trusted: TLC; the MRO table of the fixed class family in Adaptation.tla matches the generated Python "
              "classes; factories' success depends only on their position in the chain.",
         design="4/C17"),
